@@ -66,7 +66,7 @@ TWO_PI = 2.0 * math.pi
 # ------------------------------------------------------------------ alphabets
 
 RADII = {"1": 1.0, "1e-3": 1e-3, "1e3": 1e3}
-HKL = {"100": [1, 0, 0], "010": [0, 1, 0], "001": [0, 0, 1], "110": [1, 1, 0], "111": [1, 1, 1], "0-11": [0, -1, 1]}
+HKL = {"100": [1, 0, 0], "010": [0, 1, 0], "001": [0, 0, 1], "110": [1, 1, 0], "111": [1, 1, 1], "0-11": [0, -1, 1], "-100": [-1, 0, 0], "0-20": [0, -2, 0], "00-0.5": [0.0, 0.0, -0.5], "300": [3, 0, 0]}
 REF_AXES = ["xz", "yz", "xy", "zx", "zy", "yx"]
 PINNED = [(h, r) for h in ("100", "010", "001") for r in ("xz", "yz", "xy")]
 KERNELS = ["linear_inverse_kamb", "square_inverse_kamb", "exponential_kamb", "kamb_count", "schmidt_count"]
